@@ -523,6 +523,12 @@ class Types:
         return None
 
     def call_type(self, f, call, env):
+        fn = call.func
+        if isinstance(fn, ast.Name) and fn.id == "next" and call.args and isinstance(call.args[0], ast.Call):
+            inner = call.args[0]
+            if isinstance(inner.func, ast.Name) and inner.func.id == "iter" and inner.args:
+                it = self.expr_type(f, inner.args[0], env)
+                return self._elem(it, inner.args[0], f, env)
         ft = self.expr_type(f, call.func, env)
         if ft is None:
             return None
